@@ -837,7 +837,7 @@ func (a *Agent) DownloadAdd(FileID int, FilePath string, FileSize int64) error {
 
 	/* check if we don't have a path traversal */
 	path := filepath.Clean(DemonDownload)
-	if !strings.HasPrefix(path, DemonDownloadDir) {
+	if path != DemonDownloadDir && !strings.HasPrefix(path, DemonDownloadDir+"/") {
 		logger.Error("File didn't started with agent download path. abort")
 		return errors.New("File didn't started with agent download path. abort")
 	}
